@@ -89,6 +89,11 @@ pub struct Core {
     pub skew_jump_at_ms: i64,
     pub cancel: Option<Rc<tokio::sync::Notify>>,
     pub cancel_requested: bool,
+    /// A real clock moves between two consecutive reads: every read of the client clock advances
+    /// it by this many extra milliseconds (0 = reads at one simulated instant return the same value).
+    pub tick_ms: i64,
+    pub tick_total: std::cell::Cell<i64>,
+    pub clock_reads: std::cell::Cell<u64>,
 }
 
 impl Core {
@@ -108,7 +113,11 @@ impl Core {
         } else {
             self.skew_after_ms
         };
-        EPOCH_MS + e + skew
+        self.clock_reads.set(self.clock_reads.get() + 1);
+        if self.tick_ms > 0 {
+            self.tick_total.set(self.tick_total.get() + self.tick_ms);
+        }
+        EPOCH_MS + e + skew + self.tick_total.get()
     }
 }
 
@@ -249,6 +258,9 @@ pub fn with_world<B: Backend, T>(
         skew_jump_at_ms: i64::MAX,
         cancel: None,
         cancel_requested: false,
+        tick_ms: 0,
+        tick_total: std::cell::Cell::new(0),
+        clock_reads: std::cell::Cell::new(0),
     };
     let backend = make(&mut core);
     let world: Shared<B> = Rc::new(RefCell::new(World { core, backend }));
